@@ -19,6 +19,7 @@ type zzGhost struct {
 	retN     [zzMaxWrites]int64
 	before   [zzMaxWrites][zzMaxWrites]bool // before[a][b]: call a had returned when call b was invoked
 	content  string                         // label prefix of the content assertions ("c01" or, with scribbling callers, "c10")
+	sent     string                         // label of the "accepted payload was sent" assertion
 }
 
 func (g *zzGhost) invoke(id int, p []byte) {
@@ -68,7 +69,11 @@ func (g *zzGhost) checkLog(log []byte, final bool) {
 	if final {
 		for id := 0; id < g.n; id++ {
 			if g.returned[id] && g.ok[id] && len(g.snap[id]) > 0 {
-				vrt.Assert(seen[id], "c02-accepted-payload-was-sent")
+				lbl := g.sent
+				if lbl == "" {
+					lbl = "c02-accepted-payload-was-sent"
+				}
+				vrt.Assert(seen[id], lbl)
 			}
 		}
 	}
